@@ -326,3 +326,92 @@ package webrtc
 //@ prune
 //@ requires pcValid(pc) && pc.isClosed.Load()
 //@ ensures old(pc.isClosed.Load()) ==> istype(err, *rtcerr.InvalidStateError) && ret0 == nil && pc.isClosed.Load()
+
+
+// ---------------------------------------------------------------- C13
+//@ func specAnswerSetup
+//@ pure
+//@ nosafety
+//@ func specRoleOfSetup
+//@ pure
+//@ nosafety
+//@ func specDTLSRole
+//@ pure
+//@ nosafety
+//@ func specICEControlling
+//@ pure
+//@ nosafety
+
+// Assumed contracts (the SDP scanners are verified for safety under C30, here they
+// are summarised): the role announced by the remote description and its ice-lite flag
+// are fixed quantities during one call, named ufint("offerRole") / ufint("remoteLite").
+//@ func dtlsRoleFromSDP
+//@ trusted
+//@ ensures result == DTLSRole(ufint("offerRole")) && (result == DTLSRoleAuto || result == DTLSRoleClient || result == DTLSRoleServer)
+//@ modifies nothing
+//@ func isIceLiteSet
+//@ trusted
+//@ ensures result == (ufint("remoteLite") != 0)
+//@ modifies nothing
+
+//@ field SettingEngine.answeringDTLSRole props C13 writers (*SettingEngine).SetAnsweringDTLSRole
+//@ field SettingEngine.candidates props C13 writers (*SettingEngine).SetLite, (*SettingEngine).SetNetworkTypes, (*SettingEngine).SetInterfaceFilter, (*SettingEngine).SetIPFilter, (*SettingEngine).SetRemoteIPFilter, (*SettingEngine).SetICEAddressRewriteRules, (*SettingEngine).SetIncludeLoopbackCandidate, (*SettingEngine).SetICEMulticastDNSMode, (*SettingEngine).SetMulticastDNSHostName, (*SettingEngine).SetICECredentials, (*SettingEngine).SetNAT1To1IPs
+
+//@ func (*SettingEngine).SetAnsweringDTLSRole
+//@ props C13
+//@ requires e != nil
+//@ ensures err == nil ==> (e.answeringDTLSRole == DTLSRoleClient || e.answeringDTLSRole == DTLSRoleServer)
+//@ ensures err != nil ==> e.answeringDTLSRole == old(e.answeringDTLSRole)
+
+//@ func connectionRoleFromDtlsRole
+//@ props C13
+//@ ensures result == ite(d == DTLSRoleClient, sdp.ConnectionRoleActive, ite(d == DTLSRoleServer, sdp.ConnectionRolePassive, ite(d == DTLSRoleAuto, sdp.ConnectionRoleActpass, sdp.ConnectionRole(0))))
+//@ modifies nothing
+
+//@ func (*ICETransport).Role
+//@ props C13
+//@ requires t != nil
+//@ ensures result == t.role
+//@ modifies nothing
+
+//@ func (*DTLSTransport).role
+//@ props C13
+//@ requires t != nil && t.api != nil && t.api.settingEngine != nil && t.iceTransport != nil
+//@ ensures result == specDTLSRole(t.remoteParameters.Role, t.api.settingEngine.answeringDTLSRole, t.iceTransport.role == ICERoleControlling)
+//@ modifies nothing
+
+// The a=setup value handed to the answer generator (region of CreateAnswer up to the
+// call of generateMatchedSDP) is the one RFC 5763 demands / pion documents.
+//@ func (*PeerConnection).CreateAnswer #roles
+//@ props C13
+//@ nosafety
+//@ requires pcValid(pc) && !pc.isClosed.Load()
+//@ requires pc.api.settingEngine.answeringDTLSRole == DTLSRoleUnknown || pc.api.settingEngine.answeringDTLSRole == DTLSRoleClient || pc.api.settingEngine.answeringDTLSRole == DTLSRoleServer
+//@ observe cfgRole := old(pc.api.settingEngine.answeringDTLSRole)
+//@ observe offerRole := ufint("offerRole")
+//@ observe remoteLite := ufint("remoteLite")
+//@ observe localLite := old(pc.api.settingEngine.candidates.ICELite)
+//@ atcall (*PeerConnection).generateMatchedSDP assert connectionRole == specAnswerSetup(pc.api.settingEngine.answeringDTLSRole, DTLSRole(ufint("offerRole")), ufint("remoteLite") != 0, pc.api.settingEngine.candidates.ICELite)
+
+// The ICE role handed to the transports (region of SetRemoteDescription up to the
+// Enqueue of startTransports) is RFC 8445's.
+//@ func (*PeerConnection).SetRemoteDescription #icerole
+//@ props C13
+//@ nosafety
+//@ requires pcValid(pc) && !pc.isClosed.Load()
+//@ atcall (*operations).Enqueue assert (iceRole == ICERoleControlling) == specICEControlling(weOffer, remoteIsLite, pc.api.settingEngine.candidates.ICELite) && (iceRole == ICERoleControlling || iceRole == ICERoleControlled)
+
+// The property over the spec functions: for every configuration the answer's setup is
+// active or passive, the two endpoints take opposite DTLS roles that agree with the
+// exchanged setup values, and exactly one endpoint is ICE controlling.
+//@ lemma roles_complementary
+//@ props C13
+//@ vars cfgAns DTLSRole, cfgOff DTLSRole, offerSetup sdp.ConnectionRole, ansLite bool, offLite bool
+//@ requires cfgAns == DTLSRoleUnknown || cfgAns == DTLSRoleClient || cfgAns == DTLSRoleServer
+//@ requires cfgOff == DTLSRoleUnknown || cfgOff == DTLSRoleClient || cfgOff == DTLSRoleServer
+//@ requires offerSetup == sdp.ConnectionRoleActive || offerSetup == sdp.ConnectionRolePassive || offerSetup == sdp.ConnectionRoleActpass
+//@ ensures specAnswerSetup(cfgAns, specRoleOfSetup(offerSetup), offLite, ansLite) == sdp.ConnectionRoleActive || specAnswerSetup(cfgAns, specRoleOfSetup(offerSetup), offLite, ansLite) == sdp.ConnectionRolePassive
+//@ ensures specICEControlling(true, ansLite, offLite) != specICEControlling(false, offLite, ansLite)
+//@ ensures specDTLSRole(specRoleOfSetup(offerSetup), cfgAns, specICEControlling(false, offLite, ansLite)) == specRoleOfSetup(specAnswerSetup(cfgAns, specRoleOfSetup(offerSetup), offLite, ansLite))
+//@ ensures specDTLSRole(specRoleOfSetup(specAnswerSetup(cfgAns, specRoleOfSetup(offerSetup), offLite, ansLite)), cfgOff, specICEControlling(true, ansLite, offLite)) != specRoleOfSetup(specAnswerSetup(cfgAns, specRoleOfSetup(offerSetup), offLite, ansLite))
+//@ ensures offerSetup != sdp.ConnectionRoleActpass ==> specDTLSRole(specRoleOfSetup(specAnswerSetup(cfgAns, specRoleOfSetup(offerSetup), offLite, ansLite)), cfgOff, specICEControlling(true, ansLite, offLite)) == specRoleOfSetup(offerSetup)
